@@ -8,6 +8,9 @@ from .core import log
 def run(ctx):
     ctx.model_check("C02_group", "MCGroupLaw", workers=8, heap="4g")
     ctx.model_check("C02_group", "MCEdwards", workers=8, heap="4g")
+    # EFD formulas + the code's dispatch, transcribed, against the affine law (all pairs, all Z scalings)
+    ctx.model_check("C02_group", "MCFormulas", cfg="MCFormulasFull" if ctx.tier == "thorough" else "MCFormulas", workers=8, heap="4g")
+    ctx.model_check("C02_group", "MCFormulas", cfg="MCFormulasNeg", expect_violation="FormulasRefineLaw", workers=2)
     b = ctx.build_harness("harness")
     tdir = os.path.join(ctx.work, "traces")
     os.makedirs(tdir)
